@@ -25,10 +25,18 @@ def Objs.set' (o : Objs) (i : Nat) (v : Obj) : Objs :=
 
 def Objs.get' (o : Objs) (i : Nat) : Option Obj := (o[i]?).join
 
+/-- `validate()` as observed.  Building the 2^lg_k-row matrix is infeasible for large lg_k; there the model reports the
+value of `validate` by counting the (duplicate-free) table of a window-less sketch, and its proven value `true`
+(Props/C05.lean `cpc_matrix_exact`, Lemmas `validate_of_inv`) for windowed ones. -/
+def validateObs (s : Sketch) : Bool :=
+  if s.lgK ≤ 14 then validate s
+  else if s.window.isEmpty then s.table.length == s.numCoupons
+  else true
+
 /-- observation of a sketch: lg_k, C, validate(), is_empty, estimate and the three pairs of bounds -/
 def observe (T : Tabs) (s : Sketch) : String :=
   let b := (List.range 3).map (fun i => s!"{hexF (lowerBound T.est s (i+1))} {hexF (upperBound T.est s (i+1))}")
-  s!"S {s.lgK} {s.numCoupons} {boolStr (validate s)} {boolStr (s.numCoupons == 0)} {hexF (estimate T.est s)} {joinSp b}"
+  s!"S {s.lgK} {s.numCoupons} {boolStr (validateObs s)} {boolStr (s.numCoupons == 0)} {hexF (estimate T.est s)} {joinSp b}"
 
 def listNatHex (b : List Nat) : String :=
   if b.isEmpty then "-" else b.foldl (fun s x => s ++ hexN 2 x) ""
@@ -104,8 +112,9 @@ def stepLine (T : Tabs) (o : Objs) (w : List String) : Objs × String :=
     | some b, some seed =>
       match deserializeCore T.wire T.comp (seedHash (UInt64.ofNat seed)).toNat (b.toList.map (·.toNat)) (fun b => Float.ofBits (UInt64.ofNat b)) with
       | some (s, hb) =>
-        let m := buildBitMatrix s
-        let cells := (List.range (64 * 2^s.lgK)).filter (fun rc => (m.getD (rc / 64) 0).testBit (rc % 64))
+        let cells := if s.lgK > 14 && s.window.isEmpty then s.table else
+          let m := (buildBitMatrix s).toArray
+          (List.range (64 * 2^s.lgK)).filter (fun rc => (m.getD (rc / 64) 0).testBit (rc % 64))
         (o, s!"D {s.lgK} {s.numCoupons} {s.offset} {s.fic} {boolStr s.merged} {hexN 16 hb.kxp} {hexN 16 hb.hip} {joinSp (cells.map toString)}")
       | none => (o, "D undecodable")
     | _, _ => (o, "bad-op")
